@@ -303,3 +303,6 @@ def run(chk):
     # series branch of dxlog against the definition (the same obligation is part of C11)
     from . import C11b
     C11b.dxlog_series(chk)
+    # the model-level functions hand the documented model quantities (incl. the user's SM Higgs mass) to the loop-level functions
+    from . import glue
+    glue.run(chk, 'C10')
